@@ -23,7 +23,7 @@ PROPERTY = 'C18'
 RULE = ('Hypothesis-generated programs (all features) plus the example corpus. (i) reproducibility: every program is '
         'compiled twice in process and in 6 fresh subprocesses with PYTHONHASHSEED in {0,1,12345,random} and, with further seeds, under python -O and -OO; all outputs must '
         'be byte-identical (or the same diagnostic). (ii) stack-size monotonicity: a run that does not overflow at S must '
-        'behave identically at S_min, S_min+1, 2*S_min, 400, 4000 and the largest stack the word size allows. (iii) word-size '
+        'behave identically at S_min, S_min+1, 2*S_min, 400, 4000 and the largest stack the word size allows; the small dynamic-array and write-site programs of the C04 grids are additionally run at every stack size from the first that does not overflow to six above it and compared with 400 words. (iii) word-size '
         'monotonicity: if the reference interpreter at word size w reports no wrap-around, the VM events at every wider '
         'w\' in {2,3,4,8} equal those at w; a grid of small dynamic-array programs is additionally run at every word size from 2 to 8 '
         'bytes (also the odd ones). (iv) lint: compiling with unreachable_error=True either raises '
@@ -37,7 +37,7 @@ SEEDS = ['0', '1', '12345', 'random', '7 -O', 'random -OO']      # hash seed [+ 
 
 
 def shards(tier):
-    return [('det', k) for k in range(8)] + [('cfg', k) for k in range(7)] + [('wgrid', 0)]
+    return [('det', k) for k in range(8)] + [('cfg', k) for k in range(7)] + [('wgrid', 0), ('sgrid', 0), ('sgrid', 1)]
 
 
 def table_rich(prog):
@@ -212,6 +212,42 @@ def run_shard(desc, seed, tier):
     if kind == 'det':
         run_det(k, seed, tier, stats)
         return stats
+    if kind == 'sgrid':
+        # stack-size monotonicity on the small dynamic-array / write-site programs of the C04 grids: find the first stack
+        # size that does not overflow (scanning up from 0) and compare the runs just above it with a generous stack
+        from props.C04 import vla_grid_programs, write_site_programs
+        progs = vla_grid_programs() + write_site_programs()
+        for pi, (name, src) in enumerate(progs):
+            if pi % 2 != k or (tier == 'quick' and (pi // 2) % 3 != seed % 3):
+                continue
+            for ws in ((2, 3) if tier == 'quick' else (2, 3, 4, 8)):
+                for n in ((16,) if name.startswith('early') else (12345,)) if tier == 'quick' else ((3, 16) if name.startswith('early') else (7, 12345)):
+                    big = run_lines(compile_lines(src, ws, S0, False), [str(n)], budget=400_000)
+                    if big.outcome == svm.BUDGET or big.overflowed:
+                        continue
+                    first = None
+                    for S in range(0, 200):
+                        r = run_lines(compile_lines(src, ws, S, False), [str(n)], budget=400_000)
+                        stats.evaluated()
+                        stats.cls('stack_grid_runs')
+                        if r.overflowed:
+                            if first is not None:
+                                stats.violation({'kind': 'sgrid', 'value': [name, ws, n], 'signature': 'sgrid:nonmonotone',
+                                                 'message': '%s ws=%d n=%d: completes at stack size %d but overflows at the larger size %d\n%s' % (name, ws, n, first, S, src)})
+                                break
+                            continue
+                        if first is None:
+                            first = S
+                        if r.events != big.events or r.outcome != big.outcome:
+                            stats.violation({'kind': 'sgrid', 'value': [name, ws, n], 'signature': 'sgrid',
+                                             'message': '%s ws=%d n=%d: at stack size %d (first size without overflow: %d) the run gives %s, at %d words %s\n%s' % (
+                                                 name, ws, n, S, first, fmt_events(r.events), S0, fmt_events(big.events), src)})
+                            break
+                        if S >= first + 6:
+                            stats.nt('sgrid:%s:%d:%d' % (name, ws, n))
+                            break
+        stats.sample({'kind': 'stack-size grid', 'programs': 'C04 dynamic-array and write-site grids', 'sizes': 'first non-overflowing size .. +6 vs 400'})
+        return stats
     if kind == 'wgrid':
         # small programs around dynamic arrays / nested allocation (the C04 grid), every word size 2..8 bytes:
         # values stay tiny, so all word sizes must print the same
@@ -267,6 +303,25 @@ def replay(case):
             r = run_lines(compile_lines(src, ws, S0, False), [str(n)], budget=400_000)
             if r.events != base.events or r.outcome != base.outcome:
                 return 'word size %d differs from word size 2' % ws
+        return None
+    if case.get('kind') == 'sgrid':
+        from props.C04 import vla_grid_programs, write_site_programs
+        name, ws, n = case['value']
+        src = dict(vla_grid_programs() + write_site_programs())[name]
+        big = run_lines(compile_lines(src, ws, S0, False), [str(n)], budget=400_000)
+        first = None
+        for S in range(0, 200):
+            r = run_lines(compile_lines(src, ws, S, False), [str(n)], budget=400_000)
+            if r.overflowed:
+                if first is not None:
+                    return 'overflows at %d although %d completes' % (S, first)
+                continue
+            if first is None:
+                first = S
+            if r.events != big.events or r.outcome != big.outcome:
+                return 'stack size %d differs from %d words' % (S, S0)
+            if S >= first + 6:
+                break
         return None
     if case.get('kind') in ('det', 'lint'):
         it = case['item']
